@@ -817,6 +817,17 @@ def real_solver_run(name, decl_vs, cs, keys, mode, reply_fn):
     s.is_answer_key = list(keys)
     for v in decl_vs:
         v.sol = None
+    if REAL_PROCESS[0]:
+        # the external solver is a real executable (see real_process_probe): nothing is patched, the reply travels through the real
+        # `_subproc.run_subprocess`
+        with warnings.catch_warnings():
+            warnings.simplefilter("ignore")
+            try:
+                ret = core.with_timeout(60, s.find_answer if mode == "find" else s.solve, name)
+                res = [sx(ret), sols_of(decl_vs)]
+            except Exception as e:
+                res = ["err", core.err_name(e)]
+        return [], res
     with Recorder(reply_fn) as rec:
         with warnings.catch_warnings():
             warnings.simplefilter("ignore")
@@ -826,6 +837,72 @@ def real_solver_run(name, decl_vs, cs, keys, mode, reply_fn):
             except Exception as e:
                 res = ["err", core.err_name(e)]
     return rec.calls, res
+
+
+REAL_PROCESS = [False]
+
+FAKE_SUGAR = r"""#!%(py)s
+# stand-in for the `sugar` script: reads the CSP file named on the command line, answers in the wire format of
+# CspuzSugarInterface.java (reference solver of harness/c03.py), optionally chatting on STDERR first like a JVM does
+import os, sys, random
+sys.path.insert(0, %(verif)r)
+from harness import c03
+desc = open(sys.argv[1]).read()
+if os.environ.get("C03_FAKE_NOISE"):
+    sys.stderr.write("Picked up JAVA_TOOL_OPTIONS: -Xmx2g\nc 0 warnings\n")
+    sys.stderr.flush()
+sys.stdout.write(c03.make_mock_sugar(random.Random(int(os.environ.get("C03_FAKE_SEED", "0"))))(desc))
+sys.stdout.flush()
+if os.environ.get("C03_FAKE_NOISE"):
+    sys.stderr.write("done\n")
+"""
+
+
+def real_process_probe(ctx, rng):
+    """`sugar` / `sugar_extended` with a REAL external process behind the real `run_subprocess` (everything else in this module
+    replaces that function): a stand-in executable at `config.backend_path`, silent and with diagnostics on stderr.  The reply
+    is what its stdout carries; find_answer / solve must reflect it.  Returns findings as (signature, message, data)."""
+    import shutil
+    import tempfile
+    import cspuz.configuration as CF
+    out = []
+    d = tempfile.mkdtemp(prefix="c03sugar_")
+    path = os.path.join(d, "sugar")
+    with open(path, "w") as f:
+        f.write(FAKE_SUGAR % {"py": sys.executable, "verif": core.VERIF})
+    os.chmod(path, 0o755)
+    saved = (CF.config.backend_path, CF.config.solver_timeout)
+    saved_env = {k: os.environ.get(k) for k in ("C03_FAKE_NOISE", "C03_FAKE_SEED")}
+    REAL_PROCESS[0] = True
+    try:
+        CF.config.backend_path = path
+        CF.config.solver_timeout = None
+        for noisy in ("", "1"):
+            os.environ["C03_FAKE_NOISE"] = noisy
+            for k in (0, 1, 9, 11):
+                s, bools, ints = dslgen.bigint_session(k)
+                vs = list(s.variables)
+                kl = getattr(s, "_verif_keys", vs)
+                keys = [any(v is k for k in kl) for v in vs]
+                for name in ("sugar", "sugar_extended"):
+                    os.environ["C03_FAKE_SEED"] = str(rng.randrange(1000))
+                    ctx.count("real-process:" + name + (":stderr-noise" if noisy else ":quiet"))
+                    bad = _e2e(rng, vs, list(s.constraints), keys, name)
+                    if bad:
+                        out.append(("process:" + bad[0], bad[1] + " -- external solver: a real process that writes %s"
+                                    % ("diagnostics to stderr and the reply to stdout" if noisy else "only the reply to stdout"),
+                                    {"check": "real-process", "noisy": bool(noisy), "session": k, "backend": name}))
+                        break
+    finally:
+        REAL_PROCESS[0] = False
+        CF.config.backend_path, CF.config.solver_timeout = saved
+        for k, v in saved_env.items():
+            if v is None:
+                os.environ.pop(k, None)
+            else:
+                os.environ[k] = v
+        shutil.rmtree(d, ignore_errors=True)
+    return out
 
 
 def pexprs(cs):
@@ -840,7 +917,7 @@ def printable_for_model(cs_txt):
 # correspondence
 
 
-def correspond(ctx):
+def _correspond_main(ctx):
     ctx.extra["rule"] = (
         "programs: random sessions through the real DSL (<=3 bools, <=3 ints, depth<=3), native graph primitives built by "
         "cspuz.graph with use_graph_primitive=True (None sizes, expression operands), hand-made variable lists (sparse / "
@@ -1392,6 +1469,9 @@ def _e2e(rng, vs, cs, keys, name, facts=None):
 
 def replay(ctx, data):
     rng = ctx.rng
+    if data.get("check") == "real-process":
+        bad = real_process_probe(ctx, rng)
+        return Finding(bad[0][0], bad[0][1], data) if bad else None
     if data.get("check") == "e2e-large":
         for _ in range(3):
             f = e2e_large(rng, data["large"][0], data["large"][1], data.get("backend", "sugar"))
@@ -1432,3 +1512,13 @@ def replay(ctx, data):
                 return Finding(bad[0], bad[1], data)
         return None
     return None
+
+
+def correspond(ctx):
+    _correspond_main(ctx)
+    # the one path nothing above reaches: a real child process behind the real run_subprocess
+    for sig, what, data in real_process_probe(ctx, ctx.rng):
+        ctx.disagree("real-process", what=what)
+        if not hasattr(ctx, "concrete"):
+            ctx.concrete = []
+        ctx.concrete.append(Finding(sig, what, data))
